@@ -183,3 +183,10 @@ pub(crate) fn line_parent(l: &SpanLine) -> Option<SpanId> {
 pub(crate) fn line_records(l: &SpanLine) -> &crate::util::RawSpans {
     crate::local::span_queue::verif_harness::records(&l.span_queue)
 }
+pub(crate) fn mk_line(epoch: usize, token: Option<CollectToken>, queue: SpanQueue) -> SpanLine {
+    let is_sampled = match &token {
+        Some(t) => t.iter().any(|i| i.is_sampled),
+        None => true,
+    };
+    SpanLine { span_queue: queue, epoch, collect_token: token, is_sampled }
+}
